@@ -224,6 +224,10 @@ func (l *Gpos4_1) encode() []byte {
 			}
 		}
 	}
+	if baseCount*markClassCount > (65536-6-2)/2 {
+		// the reader rejects such tables
+		panic("too many anchor offsets")
+	}
 	if baseArrayOffset > 0xFFFF {
 		panic("base array offset overflow")
 	}
